@@ -6,6 +6,16 @@ use vstd::future::*;
 use core::task::Poll;
 use core::future::Future;
 use core::marker::PhantomData;
+
+macro_rules! ready {
+    ($e:expr $(,)?) => {
+        match $e {
+            core::task::Poll::Ready(t) => t,
+            core::task::Poll::Pending => return core::task::Poll::Pending,
+        }
+    };
+}
+
 verus! {
 //@include ../common/core.rs
 //@include ../common/poll.rs
